@@ -3,6 +3,7 @@ package main
 import (
 	"fmt"
 	"go/ast"
+	"go/constant"
 	"go/token"
 	"go/types"
 	"regexp"
@@ -667,6 +668,36 @@ func ruleR09R19(c *Ctx) {
 		if len(searchVar) == 0 {
 			continue
 		}
+		// the only constant a search result is meaningfully compared with is the not-found value
+		ast.Inspect(u.Body, func(n ast.Node) bool {
+			be, ok := n.(*ast.BinaryExpr)
+			if !ok {
+				return true
+			}
+			switch be.Op {
+			case token.EQL, token.NEQ, token.LSS, token.LEQ, token.GTR, token.GEQ:
+			default:
+				return true
+			}
+			for _, pair := range [][2]ast.Expr{{be.X, be.Y}, {be.Y, be.X}} {
+				v := identVar(info, pair[0])
+				if v == nil || searchVar[v] == nil {
+					continue
+				}
+				tv, has := info.Types[pair[1]]
+				if !has || tv.Value == nil || tv.Value.Kind() != constant.Int {
+					continue
+				}
+				cst, _ := constant.Int64Val(tv.Value)
+				key := fmt.Sprintf("%s search result %s compared with the not-found value", u.Name, v.Name())
+				if cst == -1 || (cst == 0 && (be.Op == token.LSS || be.Op == token.GEQ) && pair[0] == be.X) {
+					c.r.ok("R19", key, m.pos(be.Pos()), "compared with -1 (or tested for being negative)", props...)
+				} else {
+					c.r.bad("R19", key, m.pos(be.Pos()), fmt.Sprintf("the result of the lane search is compared with %d: the search returns -1 when nothing matches and a lane index otherwise, so this test treats a valid lane as not found (or the not-found value as a lane)", cst), props...)
+				}
+			}
+			return true
+		})
 		fl.walk(func(n ast.Node, fs *FactSet, stmt ast.Node, b *cfg.Block) {
 			var base, idx ast.Expr
 			switch x := n.(type) {
